@@ -116,6 +116,16 @@ def main():
     ctx = Ctx('C07', 'quick', 0)
     reg = [json.loads(p.read_text()) for p in sorted((VERIF / 'regress' / 'C07').glob('*.json'))]
     specs = reg + [c07.gen_spec(ctx.rng) for _ in range(n)]
+    if not only or only == 'patched':
+        # the repaired make_declarative against Model.declarative_patched (Properties.declarative_patched_correct)
+        mods = mods_for('decl-first-subs (the proposed fix)', 'mp')
+        kept, verdicts, infos, _ = c07.run_specs(ctx, specs, 'mutpatched', quiet=True, mods=mods, verdict='verdict_patched')
+        corr = sum(1 for v in verdicts if 1 in v)
+        valid = [v for v in verdicts if 211 not in v]
+        bad = sum(1 for v in valid if 11 in v or 14 in v or 201 in v)
+        print(f"PATCHED make_declarative vs Model.declarative_patched: {len(kept)} programs, correspondence "
+              f"disagreements {corr}; strictly valid programs {len(valid)}, of these changed/raised/guard-false "
+              f"{bad} (theorem: 0)", flush=True)
     for tag, k in enumerate(MUTATIONS):
         if only and only not in k:
             continue
